@@ -602,11 +602,13 @@ func genCfg(r *Rng) signCfg {
 	if c.time == 0 {
 		c.time = 1
 	}
-	switch r.Intn(4) {
+	switch r.Intn(5) {
 	case 0:
 		c.rm = Hx(r.Bytes(20 + r.Intn(45)))
 	case 1:
 		c.rm = Hx(r.Bytes(2 + r.Intn(3)))
+	case 2:
+		c.rm = Hx(r.Bytes(65 + r.Intn(140))) // longer than any HMAC-SHA output
 	}
 	c.timers = r.Intn(3) == 0
 	c.origOther = r.Intn(8) == 0
